@@ -372,7 +372,8 @@ def process(run, cases, policy):
     if not terms:
         return
     run.log("implementation runs done (%d cases), evaluating the model in Coq" % len(terms))
-    bad = run.coq_cases("predict", IMPORTS, "", terms, "check_predict_dc", shard=max(10, min(60, len(terms) // 12 + 1)))
+    bad = run.coq_cases("predict", IMPORTS, "", terms, "check_predict_dc", shard=max(10, min(60, len(terms) // 12 + 1)),
+                        case_type="(Z * case)%type")
     if bad is None:
         run.proof_ok = False
         return
